@@ -61,6 +61,26 @@ def main():
             em.violation("calc_crc24q differs from the CRC-24Q remainder", {"message": m.hex()}, {"impl": c, "reference": ref})
         if calc_crc24q(m + ref.to_bytes(3, "big")) != 0:
             em.violation("crc over message+crc is not zero", {"message": m.hex()}, {})
+    # the same (mutable) buffer object reused between calls and altered in place: every call must see the current content
+    for f in frames[:6]:
+        buf = bytearray(f)
+        em.direct_evaluations += 3
+        ok0 = calc_crc24q(buf) == gen.crc24q_ref(bytes(buf))
+        try:
+            RTCMReader.parse(buf, validate=1)
+        except Exception:  # noqa
+            pass
+        q = rng.randrange(0, len(buf) * 8)
+        buf[q // 8] ^= 0x80 >> (q % 8)
+        if not ok0 or calc_crc24q(buf) != gen.crc24q_ref(bytes(buf)):
+            em.violation("calc_crc24q on a reused buffer altered in place returns a stale value", {"message": bytes(buf).hex(), "previous_content": f.hex()}, {})
+        try:
+            RTCMReader.parse(buf, validate=1)
+            em.violation("a frame damaged in place after having been parsed is accepted", {"frame": f.hex(), "bits": [q], "note": "same bytearray object parsed before the damage"}, {})
+        except RTCMParseError:
+            pass
+        except Exception:  # noqa
+            pass
     em.samples = [{"message": m.hex()[:80], "kind": k} for k, m in msgs[50:53]]
 
     # ---- direct search: guaranteed-detectable damage must be rejected by the static parser
